@@ -138,3 +138,152 @@ func TestVerifReplayBuilderSweep(t *testing.T) {
 	}
 	t.Logf("%d operators executed step by step", cases)
 }
+
+
+// ---- joint consensus ----
+// The same sweep with the JointConsensus feature enabled: the region is simulated as a peer list plus a leader store;
+// entering the joint state turns promoted learners into IncomingVoters and demoted voters into DemotingVoters, leaving
+// it turns them into Voters and Learners. Reported: a step refused by its own CheckSafety when its turn comes, an add on
+// an occupied store, a removal or a leave-joint that hits the peer that is leader at that moment as a demoted one, a
+// transfer to a peer that may not lead, a final placement other than the requested one.
+func verifJointRegion(peers []*metapb.Peer, leaderStore uint64) *core.RegionInfo {
+	var leader *metapb.Peer
+	cp := make([]*metapb.Peer, 0, len(peers))
+	for _, p := range peers {
+		q := &metapb.Peer{Id: p.Id, StoreId: p.StoreId, Role: p.Role}
+		cp = append(cp, q)
+		if q.StoreId == leaderStore {
+			leader = q
+		}
+	}
+	return core.NewRegionInfo(&metapb.Region{Id: 1, Peers: cp}, leader)
+}
+
+func TestVerifReplayBuilderSweepJoint(t *testing.T) {
+	ctx, cancel := context.WithCancel(context.Background())
+	defer cancel()
+	tc := mockcluster.NewCluster(ctx, config.NewTestOptions())
+	for i := uint64(1); i <= 4; i++ {
+		tc.AddRegionStore(i, 0)
+	}
+	const stores = 4
+	pow := 81
+	cases := 0
+	jointOps := 0
+	for oc := 0; oc < pow; oc++ {
+		var origin []*metapb.Peer
+		for s, c := uint64(1), oc; s <= stores; s, c = s+1, c/3 {
+			switch c % 3 {
+			case 1:
+				origin = append(origin, &metapb.Peer{Id: 10 + s, StoreId: s})
+			case 2:
+				origin = append(origin, &metapb.Peer{Id: 10 + s, StoreId: s, Role: metapb.PeerRole_Learner})
+			}
+		}
+		for _, leader := range origin {
+			if core.IsLearner(leader) {
+				continue
+			}
+			for tcode := 0; tcode < pow; tcode++ {
+				target := map[uint64]*metapb.Peer{}
+				for s, c := uint64(1), tcode; s <= stores; s, c = s+1, c/3 {
+					switch c % 3 {
+					case 1:
+						target[s] = &metapb.Peer{StoreId: s}
+					case 2:
+						target[s] = &metapb.Peer{StoreId: s, Role: metapb.PeerRole_Learner}
+					}
+				}
+				region := verifJointRegion(origin, leader.StoreId)
+				op, err := NewBuilder("replay", tc, region).SetPeers(target).Build(0)
+				if err != nil {
+					continue
+				}
+				cases++
+				peers := region.GetMeta().GetPeers()
+				leaderStore := leader.StoreId
+				fail := func(i int, step OpStep, why string) {
+					t.Fatalf("origin %v leader %d target %v: step %d (%v) of %v: %s", origin, leader.StoreId, target, i, step, op, why)
+				}
+				find := func(store uint64) *metapb.Peer {
+					for _, p := range peers {
+						if p.StoreId == store {
+							return p
+						}
+					}
+					return nil
+				}
+				for i := 0; i < op.Len(); i++ {
+					step := op.Step(i)
+					region = verifJointRegion(peers, leaderStore)
+					if err := step.CheckSafety(region); err != nil {
+						fail(i, step, "refused when its turn comes: "+err.Error())
+					}
+					switch st := step.(type) {
+					case AddLearner:
+						if find(st.ToStore) != nil {
+							fail(i, step, "adds on an occupied store")
+						}
+						peers = append(peers, &metapb.Peer{Id: st.PeerID, StoreId: st.ToStore, Role: metapb.PeerRole_Learner})
+					case PromoteLearner:
+						find(st.ToStore).Role = metapb.PeerRole_Voter
+					case DemoteFollower:
+						if st.ToStore == leaderStore {
+							fail(i, step, "demotes the leader")
+						}
+						find(st.ToStore).Role = metapb.PeerRole_Learner
+					case RemovePeer:
+						if st.FromStore == leaderStore {
+							fail(i, step, "removes the leader")
+						}
+						var np []*metapb.Peer
+						for _, p := range peers {
+							if p.StoreId != st.FromStore {
+								np = append(np, p)
+							}
+						}
+						peers = np
+					case TransferLeader:
+						p := find(st.ToStore)
+						if p == nil || p.Role == metapb.PeerRole_Learner || p.Role == metapb.PeerRole_DemotingVoter {
+							fail(i, step, "transfers the leader to a peer that may not lead")
+						}
+						leaderStore = st.ToStore
+					case ChangePeerV2Enter:
+						jointOps++
+						for _, pl := range st.PromoteLearners {
+							find(pl.ToStore).Role = metapb.PeerRole_IncomingVoter
+						}
+						for _, dv := range st.DemoteVoters {
+							find(dv.ToStore).Role = metapb.PeerRole_DemotingVoter
+						}
+					case ChangePeerV2Leave:
+						if p := find(leaderStore); p != nil && p.Role == metapb.PeerRole_DemotingVoter {
+							fail(i, step, "leaves the joint state while the leader is a demoting voter")
+						}
+						for _, p := range peers {
+							switch p.Role {
+							case metapb.PeerRole_IncomingVoter:
+								p.Role = metapb.PeerRole_Voter
+							case metapb.PeerRole_DemotingVoter:
+								p.Role = metapb.PeerRole_Learner
+							}
+						}
+					default:
+						fail(i, step, "unexpected step kind")
+					}
+				}
+				if len(peers) != len(target) {
+					t.Fatalf("origin %v leader %d target %v: final peers %v", origin, leader.StoreId, target, peers)
+				}
+				for s, p := range target {
+					q := find(s)
+					if q == nil || core.IsLearner(q) != core.IsLearner(p) || q.Role == metapb.PeerRole_IncomingVoter || q.Role == metapb.PeerRole_DemotingVoter {
+						t.Fatalf("origin %v leader %d target %v: final peers %v", origin, leader.StoreId, target, peers)
+					}
+				}
+			}
+		}
+	}
+	t.Logf("%d operators executed step by step, %d of them through a joint state", cases, jointOps)
+}
